@@ -285,6 +285,15 @@ class InstAnalysis:
                             # capture k of the closure held by parameter pj: resolved where the closure is built
                             out.add((('p', pj), ('#c%d' % k,) + path))
                             continue
+                        cap_pl = self._capture_holding(args[0]) if self.is_closure else None
+                        if cap_pl is not None:
+                            # the closure being called is itself a capture of this closure (`|| calculate(..)`):
+                            # capture k of that captured closure, resolved where this closure is built
+                            cl_ = self._capture_loc(cap_pl)
+                            if cl_:
+                                for (r2, p2) in cl_:
+                                    out.add((r2, p2 + ('#c%d' % k,) + path))
+                                continue
                         for (r2, p2) in self.val_of_operand(args[0]):
                             out.add((r2, p2))
                     else:
@@ -346,6 +355,28 @@ class InstAnalysis:
                 cur = p2['l']
             elif rv['k'] == 'ref' and all(e['k'] == 'deref' for e in rv['pl']['p']):
                 cur = rv['pl']['l']
+            else:
+                return None
+        return None
+
+    def _capture_holding(self, o):
+        """the place `_1.k` of the closure environment whose (moved / reborrowed) value operand o is, if any"""
+        pl = op_place(o)
+        for _ in range(8):
+            if pl is None:
+                return None
+            if pl['l'] == 1 and any(e['k'] == 'field' for e in pl['p']):
+                return pl
+            if pl['p'] and not all(e['k'] == 'deref' for e in pl['p']):
+                return None
+            defs = self.body.defs.get(pl['l'], [])
+            if len(defs) != 1 or defs[0][2] != 'assign':
+                return None
+            rv = defs[0][3]['rv']
+            if rv['k'] in ('use', 'cast'):
+                pl = op_place(rv['op'])
+            elif rv['k'] in ('ref', 'rawptr'):
+                pl = rv['pl']
             else:
                 return None
         return None
@@ -908,7 +939,13 @@ class KBU:
                         touched = False
                         cw = eff.W(cid) | eff.R(cid)
                         cands = set()
+                        _eargs0, _etys0 = a.eff_args(t)
                         for cl in cw:
+                            if cl[0][0] == 'p' and not cl[1] and isinstance(cl[0][1], int) and 1 <= cl[0][1] <= len(_etys0) and \
+                                    _etys0[cl[0][1] - 1].get('closure'):
+                                # the closure value itself being moved / called: what it captures is reached through
+                                # the `#c` paths, which are translated precisely
+                                continue
                             for tl in a.translate(t, {cl}):
                                 if covers(tl, loc):
                                     cands.add(cl)
